@@ -3,5 +3,6 @@ CONSTANTS MaxLen = 3
           MaxSize = 2
           NAtoms = 2
           DevFinals = TRUE
+          Sampled = FALSE
 INVARIANTS SortInv TrieInv MinInv ElimInv FinalInv AnchorInv SymbolicInv Replay
 CHECK_DEADLOCK FALSE
